@@ -14,8 +14,8 @@ import (
 	"testing"
 
 	GG "github.com/cloudflare/circl/ecc/bls12381"
-	kit "github.com/cloudflare/circl/internal/verifref/c02kit"
 	"github.com/cloudflare/circl/internal/verifmc"
+	kit "github.com/cloudflare/circl/internal/verifref/c02kit"
 	"github.com/cloudflare/circl/sign/bls"
 )
 
@@ -416,7 +416,9 @@ func c02BlsAggregate[K bls.KeyGroup](r *verifmc.Run, name string, zero K, sigSiz
 			add("agg-len-mismatch", "msgs-short", pk, msgs[:n-1], agg)
 			add("agg-len-mismatch", "pks-short", pk[:n-1], msgs, agg)
 			add("agg-len-mismatch", "both-empty", nil, nil, agg)
-			verifmc.BitFlips(agg, func(bit int, d []byte) { add("agg-sig-flip", fmt.Sprintf("bit%d", bit), pk, msgs, append([]byte{}, d...)) })
+			verifmc.BitFlips(agg, func(bit int, d []byte) {
+				add("agg-sig-flip", fmt.Sprintf("bit%d", bit), pk, msgs, append([]byte{}, d...))
+			})
 			verifmc.Truncations(agg, func(k int, d []byte) { add("agg-sig-trunc", fmt.Sprintf("len%d", k), pk, msgs, d) })
 			for _, a := range verifmc.Appends(agg) {
 				add("agg-sig-append", a.Name, pk, msgs, a.Data)
